@@ -338,7 +338,12 @@ class CIMachine(FormatMachine):
         v = self.mods().Variant(s.obj)
         v.id, v.uid, v.name, v.type = op["id"], op["uid"], op["name"], op["type"]
         from ..seams import make_set as SimSet
-        v.arches = SimSet(op["arches"])
+        if op.get("arches_inplace") and hasattr(v.arches, "add"):
+            for a in op["arches"]:
+                v.arches.add(a)           # the variant's own default set, filled in place
+            CTX.probe("ci.arches_filled_in_place_on_default_set")
+        else:
+            v.arches = SimSet(op["arches"])
         rel = None
         if op.get("release"):
             rel = dict(op["release"])
